@@ -57,3 +57,6 @@ func write(out, name, content string, repl map[string]string, repoPath string) e
 }
 
 var generators []func(repo, out string, repl map[string]string) error
+
+func readFile(p string) ([]byte, error) { return os.ReadFile(p) }
+func writeFile(p, s string) error       { return os.WriteFile(p, []byte(s), 0644) }
